@@ -7,7 +7,7 @@ func profileByName(name string) Profile {
 	p.Name = name
 	switch name {
 	case "general":
-		p.Types = []int{0, 1, 2, 3, 9, 17}
+		p.Types = []int{0, 1, 2, 3, 4, 7, 9, 17, tBundle}
 	case "gapped":
 		p.PGap, p.POptional, p.PDecorate, p.PInvalid = 0.22, 0.4, 0.1, 0.02
 		p.MinFns, p.MaxFns = 3, 10
@@ -67,6 +67,7 @@ func profileByName(name string) Profile {
 	case "enc":
 		p.PSoft, p.PNested, p.PVariadic, p.PViaOpt, p.PFault, p.PInfo = 0, 0.5, 0.2, 0.3, 0.1, 0.3
 		p.PAs = 0.1
+		p.Types = []int{0, 1, 4, 7}
 		// names and groups that an option and a tag must treat alike, whatever they contain
 		p.Names = []string{"", "", "n1", "a`b", "q\"x"}
 		p.Groups = []string{"g1", "g2", "g`3"}
